@@ -192,9 +192,21 @@ func runC17(c *Ctx) {
 			if k, isC := unspill(ret, 0).(*ssa.Const); isC && k.IsNil() {
 				continue
 			}
+			// a path on which the returned value is the zero value of a failed comma-ok lookup hands out nothing
+			var okOfReturned *Term
+			if ex, isEx := unspill(ret, 0).(*ssa.Extract); isEx && ex.Index == 0 {
+				if lk, isLk := ex.Tuple.(*ssa.Lookup); isLk && lk.CommaOk {
+					okOfReturned = mk("extract", "1", termOf(lk))
+				}
+			}
 			_, path, found := reachAvoiding([]cfgPos{entryPos(fn)}, func(x ssa.Instruction) bool { return x == ssa.Instruction(ret) }, func(x ssa.Instruction) bool {
 				return len(upd) == 1 && instrPos(x) == upd[0].Pos && x.Block() == upd[0].Block
-			}, nil)
+			}, func(from, to *ssa.BasicBlock) bool {
+				if okOfReturned == nil {
+					return true
+				}
+				return !fx.edgeEstablishes(from, to, func(f Fact) bool { return !f.Pol && f.T.String() == okOfReturned.String() })
+			})
 			c.Check(!found, "O2", "MPT", funcKey(fn)+": every handed-out mutex is counted", instrPos(ret), "the update is on every path that returns a mutex", "a mutex can be handed out without the reference count being changed ("+pathStr(path)+"): a waiter holds no reference, the mutex is dropped from the map when the holder releases and a third caller gets a fresh mutex — two callers are then inside the per-group critical section")
 		}
 		// map mutex held across the function
@@ -275,17 +287,19 @@ func runC17(c *Ctx) {
 	if syncForPods != nil {
 		delRes := p.Func(pkgResv, "service", "deleteReservationPod")
 		delCons := p.Func(pkgResv, "service", "deleteNonReservedPods")
-		for _, in := range instrsIn(syncForPods, isCallToFn(delRes)) {
-			d, ok := hasFact(fx.FactsAt(in), func(f Fact) bool {
-				return !f.Pol && f.T.Op == "extract" && f.T.Name == "1" // !found in fractionPods
-			})
-			c.Check(ok, "O4", "DOM", funcKey(syncForPods)+": reservation pod deleted only without live consumers", instrPos(in), trunc(d, 120), "the reservation pod of a group can be deleted although live pods still carry the group")
+		// the two repair loops may live in helpers of the sync: searched through what it calls
+		notFound := func(f Fact) bool { return !f.Pol && f.T.Op == "extract" && f.T.Name == "1" }
+		hitsRes := p.deepFind(syncForPods, isCallToFn(delRes), 2)
+		hitsCons := p.deepFind(syncForPods, isCallToFn(delCons), 2)
+		for _, h := range hitsRes {
+			d, ok := hasFact(fx.FactsAt(h.In), notFound) // !found in fractionPods
+			c.Check(ok, "O4", "DOM", funcKey(syncForPods)+": reservation pod deleted only without live consumers", instrPos(h.In), trunc(d, 120), "the reservation pod of a group can be deleted although live pods still carry the group")
 		}
-		for _, in := range instrsIn(syncForPods, isCallToFn(delCons)) {
-			d, ok := hasFact(fx.FactsAt(in), func(f Fact) bool { return !f.Pol && f.T.Op == "extract" && f.T.Name == "1" })
-			c.Check(ok, "O4", "DOM", funcKey(syncForPods)+": consumers deleted only without a reservation pod", instrPos(in), trunc(d, 120), "consumers of a group can be deleted although the group has a reservation pod")
+		for _, h := range hitsCons {
+			d, ok := hasFact(fx.FactsAt(h.In), notFound)
+			c.Check(ok, "O4", "DOM", funcKey(syncForPods)+": consumers deleted only without a reservation pod", instrPos(h.In), trunc(d, 120), "consumers of a group can be deleted although the group has a reservation pod")
 		}
-		c.Check(len(instrsIn(syncForPods, isCallToFn(delRes))) == 1 && len(instrsIn(syncForPods, isCallToFn(delCons))) == 1, "O4", "REG", funcKey(syncForPods)+": both repair directions present", syncForPods.Pos(), "reservation-without-consumers and consumers-without-reservation", "the sync lost one of its two repair directions")
+		c.Check(len(hitsRes) == 1 && len(hitsCons) == 1, "O4", "REG", funcKey(syncForPods)+": both repair directions present", syncForPods.Pos(), "reservation-without-consumers and consumers-without-reservation", "the sync lost one of its two repair directions")
 		// consumers counted are Running or Pending: every way of reaching the statement that files a pod as a
 		// consumer has established one of the two phases (directly, through slices.Contains on the phase, or
 		// through a predicate helper all of whose accepting paths did)
